@@ -27,6 +27,9 @@ CLAIMS = {
  "C18": dict(level="other", ref="7/C18",
    text="Deductive core, proved for all values: Parameter.validate accepts exactly the property's kind table (spec `fits`: qubit / register / integer incl. integral floats and integral float lets / float / untyped accepts anything; annotated values by their kind) and raises JaqalError otherwise - nothing else escapes; IdleGateDefinition.__init__ gives the derived gate its parent's parameter list and the name I_<parent>, and refuses prepare/measure. AbstractGate.call (positional == keyword, arity) and stretched_gates are NOT under contract (star-args / closures over loop variables are outside the verified subset): they are exercised by the bounded signature matrix, idle gates under emulation and stretched unitaries.",
    note="Trusted: pyvc, z3; float is a real in the integrality test (no inf/nan)."),
+ "C20": dict(level="other", ref="7/C20",
+   text="Deductive core, proved for all objects: AnnotatedValue.__eq__ (also as inherited by Parameter), Constant.__eq__ and NamedQubit.__eq__ return exactly the field-wise comparison the property lists (name+kind; name+let value by numeric value; name+source register name+index) and False - never an exception - for objects lacking the fields; BlockStatement.__eq__ and LoopStatement.__eq__ are proved to return False whenever block kind, subcircuit annotation, subcircuit count or loop count differ, including the kind of a loop's body block (the discrimination clause for those tokens). Reflexivity/symmetry as whole-tree lemmas, equality of lists of statements and the relation to generated text are exercised by the bounded single-token-mutant matrix.",
+   note="GateStatement/Register/Circuit/Macro/AbstractGate/UsePulsesStatement __eq__ (zip_longest over dict views, NaN handling, recursive list equality) are not under contract; list equality inside BlockStatement.__eq__ is an uninterpreted reflexive predicate in the proofs."),
 }
 NA_REASON = "check not built yet in this round (work in progress; DESIGN.md section 7 gives the planned contracts)"
 
